@@ -215,6 +215,9 @@ def run(ctx) -> Result:
     import rabbitrun
     res.merge(rabbitrun.part(ctx, "C12", ['ttl', 'ttl', 'mixed'], specials=['prefetch-rabbit', 'prefetch-redis']))
     res.assumptions = list(res.assumptions) + rabbitrun.ASSUMPTIONS
+    # the public Queue API on every broker kind (the consumer as a context manager, the generator around it)
+    import queueapi
+    queueapi.part_c12(res)
     return res
 
 
